@@ -22,6 +22,8 @@ import inspect
 import itertools
 import multiprocessing as mp
 import os
+import sys
+import subprocess
 from typing import Any
 
 import z3
@@ -655,6 +657,94 @@ def w2_transactions(rep: Report, tier: str) -> None:
         rep.candidate(key, viol, m, replay)
 
 
+# --- W3: functions that define members of self are part of the interface phase
+def w3_interface_functions(rep: Report) -> None:
+    """The interface phase of a parallel build (and the first pass of a sequential one) visits only
+    functions flagged def_or_infer_vars; a method is visited only if it is flagged itself, and its nested
+    functions only through it.  Generated classes (real front end, real semantic analyser): a method
+    whose nested function at solver-chosen depth 0-2 makes the first assignment to `self.token`
+    (annotated or inferred, in __init__ or another method).  Obligation: the method and every function
+    between it and the assignment carry the flag -- otherwise the attribute's type is missing from the
+    interface that other workers load."""
+    import mypy.build as B
+    from mypy.modulefinder import BuildSource
+    from mypy.nodes import ClassDef, FuncDef
+    from mypy.options import Options
+
+    import mypy.semanal as SEM
+
+    rep.kernel("mypy.semanal", symx.source_hash(SEM.__file__))
+    ctx = Ctx()
+    found: dict = {}
+    n = {"p": 0}
+
+    def body(c: Ctx) -> None:
+        depth = c.choose("nesting_depth", 3)
+        meth = ["__init__", "setup"][c.choose("method", 2)]
+        annotated = bool(c.bool("annotated_assignment"))
+        ind = "        "
+        lines = ["class K:", f"    def {meth}(self) -> None:"]
+        for i in range(depth):
+            lines.append(f"{ind}def inner{i}() -> None:")
+            ind += "    "
+        lines.append(f"{ind}self.token{': int' if annotated else ''} = 1")
+        for i in reversed(range(depth)):
+            ind = ind[:-4]
+            lines.append(f"{ind}inner{i}()")
+        src = "\n".join(lines) + "\n"
+        o = Options()
+        o.incremental = False
+        o.cache_dir = os.devnull
+        o.python_version = (3, 12)
+        o.preserve_asts = True
+        res = B.build([BuildSource(None, "k", src)], o)
+        cls = next(d for d in res.files["k"].defs if isinstance(d, ClassDef))
+        m = next(d for d in cls.defs.body if isinstance(d, FuncDef))
+        chain = [m]
+        cur = m
+        for _ in range(depth):
+            cur = next(st for st in cur.body.body if isinstance(st, FuncDef))
+            chain.append(cur)
+        flags = [f.def_or_infer_vars for f in chain]
+        n["p"] += 1
+        c.stats["assert_queries"] += 1
+        if all(flags):
+            c.stats["discharged"] += 1
+        else:
+            c.stats["refuted"] += 1
+            which = "the enclosing method" if not flags[0] else "an intermediate nested function"
+            found.setdefault(f"a member of self defined in a nested function: {which} is not flagged def_or_infer_vars (skipped by the interface phase)", (src, flags))
+
+    ctx.explore(body)
+    rep.add_ctx("W3 functions defining members of self are flagged for the interface phase", ctx, programs=n["p"])
+    rep.twin("W3 reached", n["p"] > 0)
+    rep.bounds.append("W3: one class, one method (__init__ or another), first assignment to self.token at nesting depth 0-2, annotated or inferred")
+    for key, (src, flags) in found.items():
+        rep.sample({"kernel": "def_or_infer_vars", "class": key, "program": src, "flags_outer_to_inner": flags})
+
+        def replay(d: str, src: str = src) -> tuple[bool, str]:
+            # sequential vs parallel builds of a user of the attribute (cold caches, 2 and 3 workers)
+            src2 = src.replace("self.token: int = 1", "self.token = 1")
+            with open(os.path.join(d, "k.py"), "w") as f:
+                f.write(src2 + "    def describe(self) -> str:\n        return 'token=' + self.token\n")
+            with open(os.path.join(d, "use.py"), "w") as f:
+                f.write("from k import K\nk = K()\nx: str = k.token\n")
+            env = dict(os.environ)
+            env.pop("PYTHONPATH", None)
+            outs = []
+            for flags_ in ([], ["-n", "2"], ["-n", "3"]):
+                last = None
+                for _ in range(6):  # workers may miss their start-up deadline on a loaded machine
+                    p = subprocess.run([sys.executable, "-m", "mypy", "--no-error-summary", "--cache-dir", os.path.join(d, "c" + str(len(outs)))] + flags_ + ["k.py", "use.py"], cwd=d, env=env, capture_output=True, text=True, timeout=600)
+                    last = (p.returncode, sorted((p.stdout + p.stderr).strip().splitlines()))
+                    if "Cannot connect to build worker" not in p.stdout + p.stderr and "Failed to establish connection" not in p.stdout + p.stderr:
+                        break
+                outs.append(last)
+            return outs[0] != outs[1] or outs[0] != outs[2], f"program:\n{src2}sequential: {outs[0]}\nparallel -n 2: {outs[1]}\nparallel -n 3: {outs[2]}"
+
+        rep.candidate("worker: " + key, src, {"program": src}, replay)
+
+
 def main(args: Any) -> int:
     rep = Report(PID, args.tier, "symbolic execution of the real coordinator scheduling loop and BuildManager queue/batch methods with solver-chosen DAGs, size hints, worker counts and response arrival subsets at every wait; partitioned over processes")
     import mypy.build  # noqa: F401
@@ -688,6 +778,7 @@ def main(args: Any) -> int:
         rep.kernel("mypy.build.process_graph[scheduling loop]", lh)
     w1_worker_deps(rep, args.tier)
     w2_transactions(rep, args.tier)
+    w3_interface_functions(rep)
     rep.bounds.append("W2 (worker side): SCCs of 1-2 (quick) / 1-3 modules; per module write_cache result, can_skip_diagnostics and ignored_files membership symbolic; a commit of a module's meta file commits its shard")
     rep.bounds.append("W1 (worker side): every DAG among 3/4 single-module SCCs, every dependency-closed set of SCCs the worker already holds, per module the broadcast interface hash absent / pre-run / current")
     rep.add_ctx("coordinator scheduling under all arrival orders", tot, partitions=len(parts), schedules=sched, longest_schedule_waits=maxsteps)
